@@ -38,7 +38,7 @@ m = {
     "hooks": {
         "guard": "verif",
         "enable": "go test -tags verif (the harness builds /repo through a replace directive)",
-        "baseline_off_cmd": "cd /repo && go test -vet=off -count=1 ./x/...",
+        "baseline_off_cmd": "cd /repo && go test -mod=mod -json -vet=off -count=1 -timeout 25m ./...",
         "source_commits": [],
         "add_only": True,
     },
